@@ -34,7 +34,7 @@ def main():
                 return f.read().decode()
 
     vals = {
-        "s_empty": "", "s_ascii": "hello", "s_uni": "héllo ✓ \u0000 end", "s_big": "x" * 200000,
+        "s_empty": "", "s_ascii": "hello", "s_uni": "héllo ✓ \u0000 end", "s_big": "x" * 200000, "s_crlf": "a,b\r\n1,2\r\n", "s_cr": "x\ry", "s_nl": "\n\n",
         "b_empty": b"", "b_bin": bytes(range(256)), "ba": bytearray(b"abc"),
         "none": None, "int": 12345678901234567890, "list": [1, "a", None, 2.5], "dict": {"a": [1, 2], "b": None},
         "df": pd.DataFrame({"a": [1, 2, 3], "b": ["x", "y", "é"]}), "df_empty": pd.DataFrame({"a": []}),
